@@ -222,6 +222,12 @@ def rUnbondingRows (rows : List UnbondingRow) : String :=
 def rRedelRows (rows : List RedelRow) : String :=
   rRows (rows.map fun r => s!"{r.1} {r.2.1} {r.2.2.1} {r.2.2.2}")
 
+def rDelRows (r : Except Err (List DelegationRow)) : String :=
+  match r with
+  | .ok rows => rRows (rows.map fun r => s!"{r.1} {r.2.1} {r.2.2.1} {r.2.2.2}")
+  | .error (.err _) => "err"
+  | .error (.panic _) => "panic"
+
 /-- the model's answer to a query line (the part before " | "), or `none` when the line is not understood -/
 def answerQuery (w : World) (q : List String) : Option String :=
   match q with
@@ -253,6 +259,19 @@ def answerQuery (w : World) (q : List String) : Option String :=
         | .error (.err _) => "err"
         | .error (.panic _) => "panic")
     | _, _, _ => none
+  | ["dels", del] =>
+    match del.toNat? with
+    | some del => some (rDelRows (qDelegationsOf w del))
+    | none => none
+  | ["delsv", del, v] =>
+    match del.toNat?, v.toNat? with
+    | some del, some v => some (rDelRows (qDelegationsOfVal w del v))
+    | _, _ => none
+  | ["alldels"] =>
+    some (match qAllDelegations w with
+      | .ok rows => rRows (rows.map fun r => s!"{r.1} {r.2.1} {r.2.2.1} {r.2.2.2.1} {r.2.2.2.2}")
+      | .error (.err _) => "err"
+      | .error (.panic _) => "panic")
   | ["bdel", del, v, d] =>
     match del.toNat?, v.toNat?, d.toNat? with
     | some del, some v, some d =>
